@@ -38,6 +38,9 @@ func runOpsProp(r *Run, prop string) error {
 	if prop == "C01" {
 		c01UnrelatedParents(r, o)
 	}
+	if prop == "C01" || prop == "C05" {
+		insertFamily(r, prop)
+	}
 	for h := 0; h < histories; h++ {
 		f := newFamily(r.Rng)
 		if prop == "C01" {
@@ -229,6 +232,18 @@ func reapplyFamily(r *Run, o *opsGen, f *family, prop string) {
 				x.IsEnabled = true
 			}
 		}
+	}
+	// cross-member: the record one member leaves is met, in the same generation, by other members that carry
+	// more or other structure (further hidden nodes, other links): part of the record matches, part does not
+	for _, mut := range []int{0, 1, 2} { // connect_sensors, add_link, add_node
+		saved := f.env.Innovs
+		for k := 0; k < 3; k++ {
+			m := f.pick(r.Rng)
+			if c, err := genetics.VDuplicate(m, 750+k); err == nil {
+				run(opSpec{Kind: "mut", Mut: mut, Times: 1}, c)
+			}
+		}
+		_ = saved
 	}
 	for _, mut := range []int{2, 1} { // add_node, add_link
 		c1, err := genetics.VDuplicate(g, 700)
